@@ -9,7 +9,8 @@
 (* fires from the start, one integration: the notifications owed are the   *)
 (* first one and a repeat every repeat_interval.                            *)
 (* Faults: message delay up to MaxDelay, loss, crash and restart (with     *)
-(* empty log).  Clocks agree.                                              *)
+(* empty log).  Besides the gossiped updates, connected instances may      *)
+(* exchange their full logs at any time (PushPull).  Clocks agree.         *)
 (***************************************************************************)
 EXTENDS Integers, FiniteSets, Sequences, TLC
 
@@ -74,12 +75,21 @@ Restart(x) ==
   /\ due' = [due EXCEPT ![x] = now + GW]
   /\ UNCHANGED <<now, pend, net, sent, ncrash>>
 
+\* memberlist push-pull: two connected instances exchange their whole notification log over
+\* the reliable channel (periodically, and when an instance joins); each keeps the newer entry
+PushPull(x, y) ==
+  /\ x # y /\ up[x] /\ up[y] /\ nfl[x] # nfl[y]
+  /\ LET m == IF nfl[x] > nfl[y] THEN nfl[x] ELSE nfl[y]
+     IN nfl' = [nfl EXCEPT ![x] = m, ![y] = m]
+  /\ UNCHANGED <<now, up, due, pend, net, sent, ncrash>>
+
 Urgent == \/ \E x \in Inst : up[x] /\ ((due[x] <= now /\ pend[x].at = -1) \/ (pend[x].at # -1 /\ pend[x].at <= now))
           \/ \E m \in net : m.by <= now
 Tick == /\ ~Urgent /\ now < MaxTime /\ now' = now + 1
         /\ UNCHANGED <<up, nfl, due, pend, net, sent, ncrash>>
 
 Next == \/ \E x \in Inst : FlushStart(x) \/ Dedup(x) \/ Crash(x) \/ Restart(x)
+        \/ \E x, y \in Inst : PushPull(x, y)
         \/ \E m \in net : Deliver(m) \/ Lose(m)
         \/ Tick
 Spec == Init /\ [][Next]_vars
